@@ -204,6 +204,9 @@ partial def runTable (t : TTab) (a : List Rat) (acc : List String) : List String
       | 9 => ret (pure (t.concatWith (tabOfTags ((List.range (natArg 1)).map (· + natArg 0)))))
       | 10 => (t, showGroups (t.groupBy fun r => (r.1 : Int) % (intArg 0)))
       | 11 => ret (t.subsetIdx (args.map (·.toNat)))
+      | 13 =>
+        let opt (v : Int) : Option Int := if v = 1000000 then none else some v
+        ret (pure (t.subsetSliceStep (opt (intArg 0)) (opt (intArg 1)) (intArg 2)))
       | 12 => (t, showGroups (t.groupBy fun r => Tab.cutLabel (args.map fun (e : Int) => ((e : Int) : Rat)) ((r.1 : Nat) : Rat)))
       | _ => (t, "bad-op")
     runTable t' rest' (out :: acc)
